@@ -2,6 +2,7 @@
 identical type; call traces round-trip (absent return / yield stays distinct from NoneType); encoding is a function of structure."""
 import json
 import random
+import typing
 
 from monkeytype.encoding import (CallTraceRow, arg_types_from_json, arg_types_to_json, maybe_decode_type, maybe_encode_type, type_from_json, type_to_json)
 from monkeytype.tracing import CallTrace
@@ -68,9 +69,9 @@ def run(ctx):
     fx = Fixture("fxc08")
     try:
         m = fx.module()
-        funcs = [m.f, m.Widget.method, m.Widget.make.__func__, m.Widget.unit, m.Widget.ro.fget, m.wrapped.__wrapped__, m.gen]
+        funcs = [m.f, m.Widget.method, m.Widget.make.__func__, m.Widget.unit, m.Widget.ro.fget, m.wrapped.__wrapped__, m.gen, m.cached.__wrapped__, m.class_wrapped.__wrapped__]
         for fn in funcs:
-            for ret in (None, NoneType, int, m.Widget, m.Widget.Part):
+            for ret in (None, NoneType, int, m.Widget, m.Widget.Part, m.NoneType, m.mappingproxy, typing.Optional[m.NoneType], typing.List[m.mappingproxy]):
                 for yld in (None, NoneType, str):
                     tr = CallTrace(fn, {"a": int, "w": m.Widget}, ret, yld)
                     try:
@@ -79,7 +80,7 @@ def run(ctx):
                     except Exception as e:
                         H.violation("monkeytype.encoding:CallTraceRow.to_trace", "trace-roundtrip-raises:%s:%s" % (fn.__qualname__, type(e).__name__), "trace round trip raises", {"func": fn.__qualname__, "return": repr(ret), "yield": repr(yld)}, repr(e))
                         continue
-                    same = back.func is fn and back.arg_types == tr.arg_types and back.return_type is ret and back.yield_type is yld
+                    same = back.func is fn and back.arg_types == tr.arg_types and (back.return_type is ret or (ret is not None and back.return_type is not None and spec_c.tyeq(back.return_type, ret))) and back.yield_type is yld
                     key = "%s|%r|%r" % (fn.__qualname__, ret, yld)
                     if same:
                         H.ok(key, sample={"func": fn.__qualname__, "row": [row.arg_types[:60], row.return_type, row.yield_type]})
